@@ -318,20 +318,18 @@ fn encode(m: &Msg, le: bool) -> (Vec<u8>, Vec<(usize, usize)>) {
 
 // ------------------------------------------------------------------ generator
 
+/// A valid sequence number (RTPS 8.3.5.4): 1..=i64::MAX, with the 2^31 / 2^32 / maximum boundaries.
 fn gen_sn(rng: &mut Rng) -> (i64, &'static str) {
-    match rng.below(12) {
-        0 => (0, "zero"),
-        1 => (1, "one"),
-        2 => (rng.range(2, 1000), "small"),
-        3 => ((1i64 << 32) + rng.range(-2, 2), "b32"),
-        4 => ((1i64 << 31) + rng.range(-2, 2), "b31"),
-        5 => (((rng.below(1 << 20) as i64) << 32) + rng.range(-2, 2), "k*2^32"),
-        6 => (i64::MAX - rng.below(3) as i64, "max"),
-        7 => (i64::MAX - 255 - rng.below(3) as i64, "max-255"),
-        8 => (rng.range(1, i64::MAX), "pos"),
-        9 => (-1 - rng.below(3) as i64, "neg_small"),
-        10 => (i64::MIN + rng.below(3) as i64, "min"),
-        _ => (rng.next_u64() as i64, "any"),
+    match rng.below(10) {
+        0 => (1, "one"),
+        1 => (rng.range(2, 1000), "small"),
+        2 => ((1i64 << 32) + rng.range(-2, 2), "b32"),
+        3 => ((1i64 << 31) + rng.range(-2, 2), "b31"),
+        4 => (((rng.below((1 << 20) - 1) as i64 + 1) << 32) + rng.range(-2, 2), "k*2^32"),
+        5 => (i64::MAX - rng.below(3) as i64, "max"),
+        6 => (i64::MAX - 255 - rng.below(3) as i64, "max-255"),
+        7 => ((1i64 << 62) + rng.range(-2, 2), "b62"),
+        _ => (rng.range(1, i64::MAX), "pos"),
     }
 }
 
@@ -362,27 +360,30 @@ fn gen_deltas(rng: &mut Rng) -> (Vec<u32>, &'static str) {
     }
 }
 
-fn gen_sn_set(rng: &mut Rng) -> (i64, Vec<i64>, String) {
-    let (base, bc) = gen_sn(rng);
+/// A valid SequenceNumberSet (RTPS 8.3.5.5 / 9.4.2.6): base >= 1 (`zero_base`: the base 0 some
+/// vendors use in the ACKNACK sent before anything was received, which dust-dds documents as
+/// accepted), members in [base, base+255], and base + numBits still a sequence number.
+fn gen_sn_set(rng: &mut Rng, zero_base: bool) -> (i64, Vec<i64>, String) {
+    let (base, bc) = if zero_base && rng.chance(0.08) { (0, "zero") } else { gen_sn(rng) };
     let (deltas, dc) = gen_deltas(rng);
-    // members must be representable sequence numbers in [base, base+255]
     let members: Vec<i64> = deltas
         .iter()
         .filter_map(|d| base.checked_add(*d as i64))
+        .filter(|m| *m < i64::MAX)
         .collect();
     (base, members, format!("base={bc},set={dc}"))
 }
 
+/// A valid fragment number (RTPS 8.3.5.6): 1..=u32::MAX.
 fn gen_fn(rng: &mut Rng) -> (u32, &'static str) {
     match rng.below(8) {
-        0 => (0, "zero"),
-        1 => (1, "one"),
-        2 => (rng.below(1000) as u32, "small"),
+        0 | 1 => (1, "one"),
+        2 => (rng.below(1000) as u32 + 1, "small"),
         3 => ((1u32 << 31).wrapping_add(rng.range(-2, 2) as u32), "b31"),
         4 => (u32::MAX - rng.below(3) as u32, "max"),
         5 => (u32::MAX - 255 - rng.below(3) as u32, "max-255"),
         6 => ((1u32 << 16).wrapping_add(rng.range(-2, 2) as u32), "b16"),
-        _ => (rng.next_u32(), "any"),
+        _ => (rng.next_u32().max(1), "any"),
     }
 }
 
@@ -552,7 +553,40 @@ fn gen_sub(rng: &mut Rng, kind: u64, last: bool) -> (Sub, String) {
             let (sn, snc) = gen_sn(rng);
             let fixed = 32 + if q { qos_encoded_len(&qos) } else { 0 };
             let (plen, pc) = gen_payload_len(rng, fixed, last);
-            let (frag_start, fc) = gen_fn(rng);
+            // fragment fields that make a valid DATA_FRAG (RTPS 8.3.7.3.3): fragmentStartingNum >= 1,
+            // fragmentSize <= dataSize, the fragments lie inside the sample, payload <= frags * size
+            let min_frags = plen.div_ceil(65535).max(1) as u64;
+            let frags = match rng.below(5) {
+                0 => min_frags,
+                1 => min_frags + 1,
+                2 => (min_frags + rng.below(300)).min(65535),
+                3 => 65535,
+                _ => (min_frags + rng.below(4)).min(65535),
+            };
+            let min_size = (plen as u64).div_ceil(frags).max(1);
+            let frag_size = match rng.below(4) {
+                0 => min_size,
+                1 => 65535,
+                2 => min_size.max(*rng.pick(&[1u64, 8, 1344, 65000])),
+                _ => min_size + rng.below(65535 - min_size + 1),
+            };
+            let max_start = (u32::MAX as u64 / frag_size).saturating_sub(frags).max(1);
+            let (frag_start, fc) = match rng.below(5) {
+                0 => (1u64, "one"),
+                1 => (max_start, "max"),
+                2 => (rng.below(1000).min(max_start - 1) + 1, "small"),
+                3 => (((1u64 << 16) + rng.below(5)).saturating_sub(2).clamp(1, max_start), "b16"),
+                _ => (rng.below(max_start) + 1, "any"),
+            };
+            // the sample must reach at least into the last fragment of this submessage
+            let min_data = ((frag_start + frags - 2) * frag_size + 1).max(frag_size);
+            let data_size = match rng.below(4) {
+                0 => min_data,
+                1 => u32::MAX as u64,
+                2 => (frag_start + frags - 1) * frag_size,
+                _ => min_data + rng.below(u32::MAX as u64 - min_data + 1),
+            }
+            .clamp(min_data, u32::MAX as u64);
             let s = Sub::DataFrag {
                 q,
                 k,
@@ -560,18 +594,26 @@ fn gen_sub(rng: &mut Rng, kind: u64, last: bool) -> (Sub, String) {
                 reader: gen_entity(rng),
                 writer: gen_entity(rng),
                 sn,
-                frag_start,
-                frags: *rng.pick(&[0u16, 1, 2, 255, 256, u16::MAX]),
-                frag_size: *rng.pick(&[0u16, 1, 8, 1344, 65000, u16::MAX]),
-                data_size: *rng.pick(&[0u32, 1, 65535, 65536, 70000, u32::MAX]),
+                frag_start: frag_start as u32,
+                frags: frags as u16,
+                frag_size: frag_size as u16,
+                data_size: data_size as u32,
                 qos,
                 payload: rng.bytes(plen),
             };
             (s, format!("DATA_FRAG|Q{}K{}N{}|sn={snc}|frag={fc}|qos={qc}|{pc}", q as u8, k as u8, n as u8))
         }
         2 => {
+            // valid HEARTBEAT (RTPS 8.3.7.5.3): firstSN >= 1, lastSN >= firstSN - 1
             let (first, c1) = gen_sn(rng);
-            let (last_sn, c2) = gen_sn(rng);
+            let (last_sn, c2) = match rng.below(6) {
+                0 => (first - 1, "first-1"),
+                1 => (first, "first"),
+                2 => (first.saturating_add(rng.range(1, 300)), "first+n"),
+                3 => (i64::MAX, "max"),
+                4 => (first.saturating_add(1i64 << 32), "first+2^32"),
+                _ => (rng.range(first, i64::MAX), "any"),
+            };
             let f = rng.bool();
             let l = rng.bool();
             (
@@ -588,7 +630,7 @@ fn gen_sub(rng: &mut Rng, kind: u64, last: bool) -> (Sub, String) {
             )
         }
         4 => {
-            let (base, members, c) = gen_sn_set(rng);
+            let (base, members, c) = gen_sn_set(rng, true);
             let f = rng.bool();
             (
                 Sub::AckNack { f, reader: gen_entity(rng), writer: gen_entity(rng), base, members, count: gen_count(rng) },
@@ -597,7 +639,7 @@ fn gen_sub(rng: &mut Rng, kind: u64, last: bool) -> (Sub, String) {
         }
         5 => {
             let (start, sc) = gen_sn(rng);
-            let (base, members, c) = gen_sn_set(rng);
+            let (base, members, c) = gen_sn_set(rng, false);
             (
                 Sub::Gap { reader: gen_entity(rng), writer: gen_entity(rng), start, base, members },
                 format!("GAP|start={sc}|{c}"),
